@@ -188,6 +188,26 @@ def run(ctx):
         s, _, _, _ = spell(m, rng, variants=False)
         check(s, table, "default", "macrocycle")
         check("C1" + "C" * (nring - 2) + "C1" + "C(" + "C" * rng.choice([1, 20, 300]) + ")O", table, "default", "macrocycle-linear")
+    # questionable ring closures: a label that joins two atoms which are bonded already (the digit before or after a
+    # branch, at either atom), the same pair twice, an atom with itself - and the legal neighbours of these spellings
+    # (label reuse after closing, a real ring through the same positions).  Most are refused; whatever is accepted has
+    # to meet the property like any other input
+    def lab():
+        k = rng.choice([1, 2, 9, 10, 12, 99])
+        return (rng.choice(["", "", "=", "-", "/"]) if rng.random() < 0.3 else "") + ("%d" % k if k < 10 and rng.random() < 0.8 else "%%%02d" % k)
+    for i in range(150 if quick else 5000):
+        a, b, c = (rng.choice(["C", "C", "N", "S", "P", "[CH]", "[C@H]", "[Si]"]) for _ in range(3))
+        L, M = lab(), lab()
+        t1, t2 = rng.choice(["", "C", "CC", "C(F)C", "CCCC"]), rng.choice(["", "C", "O", "CC"])
+        s = rng.choice([
+            "%s(%s%s%s)%s%s" % (a, b, L, t1, L, t2), "C%s(%s%s%s)%s%s" % (a, b, L, t1, L, t2), "%s%s(%s%s%s)%s" % (a, L, b, L, t1, t2),
+            "%s%s%s%s%s" % (a, L, b, L, t2), "%s%s%s%s%s%s%s%s" % (a, L, M, t1 or "C", b, L, M, t2), "%s%s%s%s" % (a, L, L, t2),
+            "%s%s%s%s%s%s%s%s" % (a, L, t1 or "CC", b, L, t2 or "C", c, L) + "CC" + b + L,
+            "%s(%s%s%s%s)%s%s" % (a, b, t1 or "C", c, L, L, t2), "%s(%s%s)(%s)%s" % (a, b, L, c, L), "%s.%s(%s%s)%s" % (t1 or "C", a, b, L, L)])
+        sf.set_semantic_constraints(rng.choice(["default", "hypervalent", {"?": 12}]))
+        ctx.count("questionable_ring_closures")
+        if check(s, sf.get_semantic_constraints(), "qr", "questionable-ring-closure") is not None:
+            ctx.count("questionable_ring_closures_accepted")
     # every ring / branch symbol kind x every index length, under a lax and the default table
     fam = list(symbol_family_smiles(rng))
     for tt in ({"?": 12}, "default"):
